@@ -35,46 +35,28 @@ Theorem C20_gen_all_contexts : forall (S : sem) (F : flags) e, eok F e = true ->
 Proof. exact gen_correct. Qed.
 Print Assumptions C20_gen_all_contexts.
 
-(* statements: the code of gen_stmt started in any machine state runs to completion and has the event
-   trace, the leaf sequence and the final variables of the reference (CPython order) statement.
-   del statements: *)
-Theorem C20_del_trace_eq : forall (S : sem) (F : flags) o es st, forallb (eok F) es = true ->
-  let '(code, _) := gen_stmt F (SDel o es) 0 in
-  let r := ref_stmt S (mvars st) (SDel o es) in
+(* statements: for every statement s of the modelled language - (cascaded / unpacking) assignment,
+   augmented assignment, del - the code of gen_stmt started in any machine state runs to completion and
+   has the event trace, the leaf sequence and the final variables of the reference (CPython order):
+     t1 = t2 = ... = rhs : right-hand side first, then the targets left to right, the sub-expressions of
+        every target (in the variable environment the earlier targets left) before its store, the items of
+        a tuple target after ONE unpacking of the value;
+     x op= rhs, b[i] op= rhs, o.a op= rhs : object and index once (let-temps of ExpandInplaceOperators),
+        read, right-hand side, operation, store;
+     del target : sub-expressions left to right, then the deletion.
+   stmt_ok (executable) = the expressions are covered (eok); for assignments: the parallel-assignment
+   flattening of the tree as it is does not apply (flattens = None, or the repair fx_cascade - the finding
+   is refuted below), and a value that is a bare variable is not reassigned inside a tuple target (the
+   compiler does not copy a simple right-hand side: x, y = z = x hands the NEW x to z - documented
+   assumption "leaves do not rebind the variables"); for attribute targets of augmented assignments: the
+   repair fx_inplace (applied in the tree; the old behaviour is refuted below). *)
+Theorem C20_stmt_trace_eq : forall (S : sem) (F : flags) s st, stmt_ok F s = true ->
+  let '(code, _) := gen_stmt F s 0 in
+  let r := ref_stmt S (mvars st) s in
   exists st', run S code st Normal = (st', Normal) /\
     mvars st' = svars r /\ trace st' = trace st ++ sev r /\ leaflog st' = leaflog st ++ slf r.
-Proof. exact del_correct. Qed.
-Print Assumptions C20_del_trace_eq.
-
-(* (cascaded / unpacking) assignments  t1 = t2 = ... = rhs : right-hand side first, then the targets left
-   to right, the sub-expressions of every target (in the variable environment the earlier targets left)
-   before its store, the items of a tuple target after one unpacking of the value.
-   Hypotheses: the expressions are covered (eok); the parallel-assignment flattening of the tree as it is
-   does not apply (flattens = None, or the repair fx_cascade; the finding is refuted below); a value that
-   is a bare variable is not reassigned inside a tuple target (the compiler does not copy a simple
-   right-hand side: x, y = z = x hands the NEW x to z - documented assumption "leaves do not rebind"). *)
-Theorem C20_assign_trace_eq : forall (S : sem) (F : flags) ts rhs st,
-  eok F rhs = true -> forallb (target_ok F) ts = true ->
-  (let '(_, v, _) := gen F CVal rhs 0 in forallb (tsafe v) ts = true) ->
-  fx_cascade F = true \/ flattens ts rhs = None ->
-  let '(code, _) := gen_stmt F (SAssign ts rhs) 0 in
-  let r := ref_stmt S (mvars st) (SAssign ts rhs) in
-  exists st', run S code st Normal = (st', Normal) /\
-    mvars st' = svars r /\ trace st' = trace st ++ sev r /\ leaflog st' = leaflog st ++ slf r.
-Proof. exact assign_correct. Qed.
-Print Assumptions C20_assign_trace_eq.
-
-(* augmented assignments  x op= rhs,  b[i] op= rhs,  o.a op= rhs : object and index once (let-temps of
-   ExpandInplaceOperators), read, right-hand side, operation, store.  aug_ok: covered sub-expressions and,
-   for attribute targets, the repair fx_inplace (applied in the tree; the old behaviour is refuted below) *)
-Theorem C20_aug_trace_eq : forall (S : sem) (F : flags) lhs iop rhs st,
-  aug_ok F lhs rhs = true ->
-  let '(code, _) := gen_stmt F (SAug lhs iop rhs) 0 in
-  let r := ref_stmt S (mvars st) (SAug lhs iop rhs) in
-  exists st', run S code st Normal = (st', Normal) /\
-    mvars st' = svars r /\ trace st' = trace st ++ sev r /\ leaflog st' = leaflog st ++ slf r.
-Proof. exact aug_correct. Qed.
-Print Assumptions C20_aug_trace_eq.
+Proof. exact stmt_correct. Qed.
+Print Assumptions C20_stmt_trace_eq.
 
 (* findings: with the tree as it is the property is refuted (witnesses replayed on the compiled code by
    props/C20.py), each repaired variant agrees with the reference on its witness *)
@@ -190,9 +172,12 @@ Example C20_nonvacuous :
   eok repaired (ECond (EOr (ENot (ELeaf 1 1)) (ELeaf 0 2))
                       (EMCall 7 (OLog 2) (ELeaf 0 7) [EMinMax (OLog 0) [ELeaf 0 8; ELeaf 1 9]]) (ELeaf 0 11)) = true
   /\ trace_of repaired w_big = sev (ref_run w_big) /\ 10 <= length (trace_of repaired w_big)
+  /\ stmt_ok repaired w_big = true
+  /\ stmt_ok repaired w_inplace = true
   /\ eok cc_asis w_cc_big = true
   /\ trace_of cc_asis (SAssign [TS (TName rvar)] w_cc_big) = sev (ref_run (SAssign [TS (TName rvar)] w_cc_big)).
 Proof.
   split; [reflexivity|]. split; [apply big_agrees|]. split; [apply big_agrees|].
+  split; [reflexivity|]. split; [reflexivity|].
   split; apply cc_big_covered.
 Qed.
